@@ -368,7 +368,7 @@ from zverif.harness.c05 import h_abort_reader as _abort_reader  # noqa: E402  (l
 from zverif.harness.c16 import h_load_before as _demo_load_before  # noqa: E402  (DemoStorage is one of the bundled storages)
 
 _FILE_Q = ['T1', 'T2', 'T4', 'T6']
-_FILE_ALL = ['T1', 'T2', 'T3', 'T4', 'T5', 'T6', 'T10', 'T3E', 'TBIG', 'TS', 'TX']
+_FILE_ALL = ['T1', 'T2', 'T3', 'T4', 'T5', 'T5C', 'T6', 'T10', 'T3E', 'TBIG', 'TS', 'TX']
 
 HARNESSES = [
     Harness('load_before', h_load_before,
@@ -409,7 +409,7 @@ HARNESSES = [
             decides='undoLog(first, last) lists the same transactions and metadata as the history, newest first',
             symbolic='first (0..8), last (-8..8)', bounds='templates per shard', oracle='RevStore.undo_log',
             code=['FileStorage.undoLog', 'UndoSearch'],
-            quick=dict(timeout=80, shards=shards(template=['T3', 'T4', 'TBIG', 'TS', 'TX'], reopen=[0])),
+            quick=dict(timeout=80, shards=shards(template=['T3', 'T4', 'T5C', 'TBIG', 'TS', 'TX'], reopen=[0])),
             thorough=dict(timeout=600, shards=shards(template=_FILE_ALL, reopen=[0, 1]))),
     Harness('iterator', h_iterator,
             decides='iterator(start, stop) yields exactly the transactions in range with their records and metadata',
@@ -417,7 +417,7 @@ HARNESSES = [
             bounds='templates per shard', oracle='RevStore.iterate', pure_python=True,
             code=['FileIterator.__init__', '_skip_to_start', '_scan_forward', '_scan_backward', '__next__',
                   'TransactionRecordIterator.__next__', 'MappingStorage.iterator'],
-            quick=dict(timeout=120, shards=shards(template=['T3', 'T4', 'TBIG'], storage=['file'], reopen=[0], use_start=[True], use_stop=[False])
+            quick=dict(timeout=120, shards=shards(template=['T3', 'T4', 'T5C', 'TBIG'], storage=['file'], reopen=[0], use_start=[True], use_stop=[False])
                        + shards(template=['T4'], storage=['file'], reopen=[0], use_start=[False], use_stop=[True])
                        + shards(template=['T2'], storage=['mapping'], reopen=[0], use_start=[False], use_stop=[True])
                        + shards(template=['T2'], storage=['mapping'], reopen=[0], use_start=[True], use_stop=[False])),
